@@ -80,7 +80,8 @@ def cases(tier, mode='func'):
         return func_cases(tier, prefix='c11', checks='safety', leak=True, nmax=3 if q else 5)
     if mode == 'copy':
         cc = {'VF_COPYCHK': None}
-        return func_cases(tier, prefix='c12', checks='safety', ops=('PUT', 'GET', 'MIN', 'MAX'), nmax=3 if q else 5, extra=cc) + \
+        mixed = [tree_case('c12', sh, 'REMOVE', {'VF_C12': None, 'VF_PDSZ': 1, 'VF_PDSZ_ODD': 3}, sfx='.mix') for sh in shapes(4 if q else 5) if sh['n'] >= 2]
+        return mixed + func_cases(tier, prefix='c12', checks='safety', ops=('PUT', 'GET', 'MIN', 'MAX'), nmax=3 if q else 5, extra=cc) + \
             [tree_case('c12', sh, 'NEAREST', cc, checks='safety') for sh in shapes(3 if q else 5)] + [tree_case('c12', sh, 'WALK', cc, checks='safety') for sh in shapes(3 if q else 4)]
     out = []
     if mode == 'lock':
